@@ -120,6 +120,9 @@ class NoiselessDetector(Detector):
         else:
             power = wavefront
 
+        if self.subsamping > 1:
+            power = subsample_field(power, subsampling=self.subsamping, new_grid=self.detector_grid, statistic='sum')
+
         self.accumulated_charge += power * dt * weight
 
     def read_out(self):
